@@ -42,6 +42,8 @@ import (
 	"github.com/emmansun/gmsm/sm4"
 	"github.com/emmansun/gmsm/sm9"
 	"github.com/emmansun/gmsm/smx509"
+
+	"gmsmverif/internal/rt"
 )
 
 type entry map[string]interface{}
@@ -94,7 +96,13 @@ func main() {
 	outp := flag.String("out", "", "ndjson output file")
 	seed := flag.Int64("seed", 1, "seed of the deterministic reader")
 	repo := flag.String("repo", "/repo", "repository root (test fixtures are read from it)")
+	table := flag.Bool("table", false, "print the C13 entry-point table as JSON and exit")
 	flag.Parse()
+	if *table {
+		b, _ := json.Marshal(rt.HostileTable())
+		fmt.Println(string(b))
+		return
+	}
 	f, err := os.Create(*outp)
 	must(err)
 	out = bufio.NewWriter(f)
@@ -149,7 +157,7 @@ func main() {
 
 	// SM2 / ecdh key encodings
 	add("sm2-pub-raw", "sm2-pub-raw65", pubB65, false, nil)
-	add("sm2-pub-raw", "sm2-pub-raw33", elliptic.MarshalCompressed(sm2.P256(), keyB.X, keyB.Y), false, nil)
+	add("sm2-pub-raw", "sm2-pub-raw33", elliptic.MarshalCompressed(sm2.P256(), keyB.X, keyB.Y), false, entry{"nomust": true}) // compressed points are refused by both constructors
 	add("sm2-priv-raw", "sm2-priv-raw32", dB, false, nil)
 	add("ecdh-pub", "ecdh-pub65", ecdhB.PublicKey().Bytes(), false, nil)
 	add("ecdh-priv", "ecdh-priv32", ecdhB.Bytes(), false, nil)
@@ -184,7 +192,7 @@ func main() {
 	s9sig := mustB(sm9.SignASN1(rnd, suk, sm9hash[:]))
 	add("sm9-sig", "sm9-sig", s9sig, true, entry{"mpub": hx(smpub.Bytes()), "uid": hx(uid), "hid": int(hidS), "hash": hx(sm9hash[:])})
 
-	eukRaw := euk.Bytes()
+	eukRaw := mustB(smx509.MarshalPKCS8PrivateKey(euk)) // PKCS#8: carries the master public key
 	wk, wc, err := sm9.WrapKey(rnd, empub, uid, hidE, 32)
 	must(err)
 	_ = wk
@@ -209,7 +217,7 @@ func main() {
 	must(err)
 	kxA := euk.NewKeyExchange(uid, []byte("Bob"), 16, true)
 	rA := mustB(kxA.InitKeyExchange(rnd, hidE))
-	add("sm9-kx-ra", "sm9-kx-ra", rA, false, entry{"upriv": hx(eukB.Bytes()), "mpub": hx(empub.Bytes()), "uid": hx([]byte("Bob")), "peer": hx(uid), "hid": int(hidE)})
+	add("sm9-kx-ra", "sm9-kx-ra", rA, false, entry{"upriv": hx(mustB(smx509.MarshalPKCS8PrivateKey(eukB))), "mpub": hx(empub.Bytes()), "uid": hx([]byte("Bob")), "peer": hx(uid), "hid": int(hidE)})
 
 	// the six key types
 	add("sm9-sign-master-priv", "sm9-smk-asn1", mustB(smk.MarshalASN1()), true, nil)
@@ -296,10 +304,10 @@ func main() {
 	rsp2 := mustB(smx509.MarshalCSRResponse([]*smx509.Certificate{tmpc.cert}, nil, nil))
 	add("csr-response", "csr-response-signonly", rsp2, true, entry{"key": hx(dT)})
 
-	// CFCA escrow private key blob: base64(SEQUENCE{1, OCTET STRING C1C2C3 of X||Y||D}) under the temporary key
+	// CFCA escrow private key blob: base64(SEQUENCE{1, OCTET STRING C1C3C2 (without the 04 prefix) of X||Y||D}) under the temporary key
 	{
 		xyD := append(append([]byte{}, pubB65[1:]...), dB...)
-		c := mustB(sm2.Encrypt(rnd, &keyT.PublicKey, xyD, sm2.NewPlainEncrypterOpts(sm2.MarshalUncompressed, sm2.C1C2C3)))
+		c := mustB(sm2.Encrypt(rnd, &keyT.PublicKey, xyD, nil))
 		inner := mustB(asn1.Marshal(struct {
 			Version      int
 			EncryptedKey []byte
